@@ -5,6 +5,7 @@ mod bounded;
 mod bounded2;
 mod bounded3;
 mod bounded4;
+mod audit;
 use ommx::v1::{self, decision_variable::Kind, Constraint, DecisionVariable, Equality, Function, Instance, Linear};
 use std::collections::HashMap;
 
